@@ -337,6 +337,18 @@ func init() {
 	}
 	intrinsics["github.com/enfein/mieru/v3/pkg/protocol.segmentTree.Ascend"] = iterate(1)
 	intrinsics["sync.Map.Range"] = iterate(1)
+	// sync.Map as an opaque concurrent table: lookups return arbitrary (previously
+	// existing) values, updates have no effect on modelled state.
+	syncMapOpaque := func(e *Engine, fr *Frame, st *State, fn *ssa.Function, args []SV, resT types.Type, pos token.Pos) SV {
+		e.vc.usedExt["sync.Map contents are not modelled: Load/LoadOrStore/LoadAndDelete return arbitrary values, Store/Delete have no modelled effect"] = true
+		if resT == nil {
+			return nil
+		}
+		return e.freshSV(resT, "syncmap", st.pc, st)
+	}
+	for _, m := range []string{"Load", "Store", "Delete", "LoadOrStore", "LoadAndDelete", "Swap", "CompareAndSwap", "CompareAndDelete", "Clear"} {
+		intrinsics["sync.Map."+m] = syncMapOpaque
+	}
 	intrinsicPrefixes = map[string]intrinsic{
 		logPkg: noop,
 	}
